@@ -494,6 +494,7 @@ func (f *fctx) applyContract(callee *ssa.Function, con *Contract, args []Term, p
 		res = append(res, r)
 	}
 	f.havocGhosts(con.Modifies)
+	emitted := f.applyEmits(callee, con, args)
 	// frame: assigns recv.f / param.f
 	for _, a := range con.Assigns {
 		parts := strings.SplitN(a, ".", 2)
@@ -534,7 +535,7 @@ func (f *fctx) applyContract(callee *ssa.Function, con *Contract, args []Term, p
 					covered = true
 				}
 			}
-			if len(con.Fresh) > 0 {
+			if len(con.Fresh) > 0 || con.LocalEffects {
 				covered = true // writes to freshly allocated objects
 			}
 			if !covered && strings.HasPrefix(k, "H$") {
@@ -543,6 +544,9 @@ func (f *fctx) applyContract(callee *ssa.Function, con *Contract, args []Term, p
 		}
 	}
 	env := f.contractEnv(con, callee, args, res, f.cur, pre)
+	if emitted != nil {
+		env.Vars["$emitted"] = *emitted
+	}
 	for _, c := range con.Ensures {
 		t, err := ToSMT(c.Expr, env)
 		if err != nil {
@@ -625,6 +629,97 @@ func (f *fctx) applyContract(callee *ssa.Function, con *Contract, args []Term, p
 		}
 	}
 	return res
+}
+
+// applyEmits: the callee declares `emits <callback parameter>`: it calls the callback any number of times.  The
+// argument must be a closure of the form func(x) { captured = append(captured, x) }; its effect is that the
+// captured slice is extended by the (unknown) emitted sequence, which the callee's ensures may constrain as $emitted.
+func (f *fctx) applyEmits(callee *ssa.Function, con *Contract, args []Term) *Term {
+	if con.Emits == "" {
+		return nil
+	}
+	idx := -1
+	for i, p := range callee.Params {
+		if p.Name() == con.Emits {
+			idx = i
+		}
+	}
+	if idx < 0 || idx >= len(args) {
+		panic(specErr{"emits: unknown parameter " + con.Emits})
+	}
+	var mc *ssa.MakeClosure
+	for _, c := range f.clos {
+		if "closure:"+c.Name() == args[idx].S {
+			mc = c
+		}
+	}
+	if mc == nil {
+		f.fail("argument for the emitting callback %s of %s is not a closure literal", con.Emits, callee.Name())
+	}
+	fn := mc.Fn.(*ssa.Function)
+	// recognise  func(x T) { v = append(v, x) }
+	var fv *ssa.FreeVar
+	ok := len(fn.FreeVars) >= 1 && len(fn.Params) == 1 && len(fn.Blocks) == 1
+	stores := 0
+	if ok {
+		for _, ins := range fn.Blocks[0].Instrs {
+			st, isStore := ins.(*ssa.Store)
+			if !isStore {
+				continue
+			}
+			if v, isFV := st.Addr.(*ssa.FreeVar); isFV {
+				stores++
+				call, isCall := st.Val.(*ssa.Call)
+				if !isCall {
+					ok = false
+					continue
+				}
+				bi, isB := call.Call.Value.(*ssa.Builtin)
+				if !isB || bi.Name() != "append" || len(call.Call.Args) != 2 {
+					ok = false
+					continue
+				}
+				ld, isLd := call.Call.Args[0].(*ssa.UnOp)
+				if !isLd || ld.X != v {
+					ok = false
+					continue
+				}
+				fv = v
+			}
+		}
+	}
+	if !ok || stores != 1 || fv == nil {
+		f.fail("closure passed as emitting callback of %s is not of the form v = append(v, x)", callee.Name())
+	}
+	var bind ssa.Value
+	for i, v := range fn.FreeVars {
+		if v == fv && i < len(mc.Bindings) {
+			bind = mc.Bindings[i]
+		}
+	}
+	var place *Place
+	if p, ok := f.places[bind]; ok {
+		place = p
+	} else if p, ok := f.binds[bind]; ok {
+		place = p
+	}
+	if place == nil || place.Kind != PCell || place.Sort.Kind != KSeq {
+		f.fail("emitting callback of %s: captured variable is not a local slice", callee.Name())
+	}
+	old := f.cur.cells[place.Key]
+	em := f.declare("emitted", place.Sort)
+	f.assume(T(SBool, "(>= (seq.len %s) 0)", em.S))
+	nv := f.declare("after_emit", place.Sort)
+	f.assume(T(SBool, "(= (seq.len %s) (+ (seq.len %s) (seq.len %s)))", nv.S, old.S, em.S))
+	f.assume(T(SBool, "(forall ((q!k Int)) (! (=> (and (<= 0 q!k) (< q!k (seq.len %s))) (= (select (seq.el %s) q!k) (select (seq.el %s) q!k))) :pattern ((select (seq.el %s) q!k))))", old.S, nv.S, old.S, nv.S))
+	f.assume(T(SBool, "(forall ((q!k Int)) (! (=> (and (<= 0 q!k) (< q!k (seq.len %s))) (= (select (seq.el %s) (+ (seq.len %s) q!k)) (select (seq.el %s) q!k))) :pattern ((select (seq.el %s) q!k))))", em.S, nv.S, old.S, em.S, em.S))
+	if place.Sort.Elem.Kind == KStr {
+		f.assume(T(SBool, "(forall ((q!k Int)) (! (str.wf (select (seq.el %s) q!k)) :pattern ((select (seq.el %s) q!k))))", em.S, em.S))
+		f.assume(T(SBool, "(forall ((q!k Int)) (! (str.wf (select (seq.el %s) q!k)) :pattern ((select (seq.el %s) q!k))))", nv.S, nv.S))
+	}
+	f.cur.cells[place.Key] = nv
+	f.sc.Trusted["emit idiom: "+callee.Name()+" calls its callback "+con.Emits+" zero or more times and does nothing else with it"] = true
+	return &em
 }
 
 // inlineCall translates the callee body in place (callees without contract).
